@@ -24,6 +24,7 @@ SCRATCH = os.path.join(V.BUILD, "C16", "scratch")
 IMPL_ENV = {"C16_SCRATCH": SCRATCH}
 
 LIMIT_DEFAULT = 4096
+PRE_EXISTING = b"PRE-EXISTING LINE\n"
 SRC_BASENAME = "c16_src.c"
 SRC_FUNC = "c16_case"
 LEVELS = [0, 256, 512, 768, 1024, 1280]
@@ -31,11 +32,15 @@ ODD_LEVELS = [-1, 255, 257, 767, 1279, 1281, 1536]
 LEVEL_NAMES = ["TRACE", "DEBUG", "INFO", "WARNING", "ERROR", "FATAL"]
 ESC_RED, ESC_YEL, ESC_RST = b"\x1b[31m", b"\x1b[33m", b"\x1b[0m"
 
-RULE = ("mode seq: every level x handler-level pair (the six levels plus off-grid values), message lengths 0..3xLIMIT with "
+RULE = ("mode seq (also: the library's own entry points muggle_log_simple_init / muggle_log_complicated_init on the default logger "
+        "through the MUGGLE_LOG_DEFAULT macro; the plain file handler in append mode, with a relative path, without its mutex; "
+        "blocks allocated by the log calls pre-filled with 64-bit patterns; the prefix of every formatter over all level names, "
+        "clocks around leap days / month / year ends, line numbers of 1..10 digits): every level x handler-level pair (the six levels plus off-grid values), message lengths 0..3xLIMIT with "
         "all boundaries of the formatted line around LIMIT, printable / format-like ('%s%n') / non-ASCII content, both "
         "built-in formatters, custom + file + console + rotating handlers, sync and async loggers, malloc failure "
         "positions; mode thr: 1..16 real producer threads with tagged payloads (sync, async below and above queue "
-        "capacity), incl. 2..8 threads through the size-rotating handler with a small max_bytes (dozens of rotations) and "
+        "capacity), incl. the console handler (colours on / off; stdout / stderr captured at fwrite, escape sequence + line + reset "
+        "must stay together), incl. 2..8 threads through the size-rotating handler with a small max_bytes (dozens of rotations) and "
         "the time-rotating handler with the per-call clock crossing periods, the stream checked being all backup / period "
         "files + the live file; mode vs (rotating handlers too: fclose / fopen of a rotation are scheduling points): the same code under the deterministic scheduler (handler-mutex atomicity; async queue-full "
         "and shutdown paths) with every trace replayed on the extracted model; non-trivial = a call is filtered and "
@@ -51,6 +56,21 @@ TRUSTED_BASE = [
     "the channel is modelled as a bounded FIFO with FULL whose push / full / pop linearise at the store of write_cursor / "
     "the load of read_cursor / the store of read_cursor (C01's subject); usable capacity = next_pow_of_2(capacity) - 2",
     "LIMIT, the level enum and MUGGLE_LOGGER_MAX_HANDLER are re-extracted from the headers into coq/gen/Params_C16.v on every run",
+    "second tie (translator kind): lib/props/c16_slice.py slices, out of the clang JSON AST of the C text of this run, "
+    "muggle_log_handler_should_write, the log functions of both loggers (pre-filter loop unrolled to the re-extracted "
+    "MUGGLE_LOGGER_MAX_HANDLER, early-out, msg.level, size given to vsnprintf and capacity of the payload buffer, allocation "
+    "and channel-full paths of the async logger), the write function of the four built-in handlers (formatter call, ret<0, "
+    "clamp, newline store, count handed to fwrite, offset / rotation test of the size-rotating handler, detect / rotate before "
+    "the write in the time-rotating one), the printf layout of the two built-in formatters (format string, source of every "
+    "%s, integer argument of every numeric conversion) and the name table of muggle_log_level_to_str; pointers are followed "
+    "symbolically, helpers of the log module are inlined, libc / mutex / channel calls become events on ghost fields; "
+    "lib/leaftrans.py turns the slices into Gallina (coq/gen/Params_C16.v gen_*); obligations gen_*_matches_model prove them "
+    "equal to the model by shape-independent decision tactics; trusted: clang 14 AST, the slicer and the translator; the "
+    "dispatch loop of muggle_logger_write is not in this tie (2^MAX_HANDLER paths), it stays with the differential run",
+    "the model's formatters (Model.fmt_simple / fmt_complicated, decimal rendering proved exact, gmtime as the civil-from-days "
+    "algorithm) produce the whole line; the drivers only supply the call's source location (c16_src.c / c16_case), the "
+    "interposed clock and thread id; muggle_path_basename (C20) and libc's gmtime_r / snprintf conversions are modelled, "
+    "not verified, and compared byte for byte on every call",
 ]
 ASSUMPTIONS = [
     "handler formatters are set before add_handler; handler levels may change at any time between calls "
@@ -58,6 +78,9 @@ ASSUMPTIONS = [
     "the time the writer thread processes it; the driver waits for the writer thread to be idle before a level change); "
     "payloads contain no NUL and no newline; no logging concurrent with or after destroy; a formatter line ends with a newline",
     "async logger: channel capacity >= 3 (usable capacity >= 1) for destroy to return",
+    "a handler may look at any field of the message: fields the log function does not stamp (timestamp / thread id without the "
+    "matching formatter hint) read as 0 = 'not set' on both loggers (repaired for the async logger by "
+    "fixes/C16-async-msg-uninitialised-ts.patch)",
 ]
 EVIDENCE_NOTES = [
     "async_destroy_drains and async_no_leak_on_full are proved in full for the repaired code (C16/ProofsAcct.v: counting "
@@ -78,6 +101,29 @@ EVIDENCE_NOTES = [
     "fixes/C16-stale-lowest-level.patch); handler_level_filter_stale_before_repair records the defect (snapshot "
     "lowest_log_level dropped calls after a handler was lowered); corpus/C16/regress-stale-lowest-level.case is its "
     "regression case.  The interleaving models use the static threshold min_level (handler_level_prefilter_static).",
+    "formatted line: log_line_is_truncated_format now includes the layout of the two built-in formatters (level name from the "
+    "table re-extracted from log_level.c, date / time / milliseconds, file:line, function, thread id, ' - ', payload, newline); "
+    "the model driver prints its own 'call' lines (unbounded output of both formatters per call) which are compared with the "
+    "implementation's, and every handler stream is compared whole, prefix included; the monitor recomputes both layouts "
+    "independently (Python) for every call and every stream.  gen_fmt_*_matches_model / gen_level_index_matches_model tie the "
+    "layout and the names to the C text: a swapped field, a changed separator, width or name breaks an obligation and is "
+    "found by the differential run with a concrete replay.",
+    "translator tie: an off-by-one in any handler's clamp or newline index, a changed ret<0 / fmt==NULL path, > for >= in "
+    "should_write or in a pre-filter loop, a payload buffer shorter than the size given to vsnprintf, a changed rotation test "
+    "or a write moved across the rotation breaks a gen_*_matches_model obligation even when no generated case reaches it; "
+    "renamed locals, a named maximum, the store before the assignment, lock / unlock helpers, a reloaded FILE pointer, "
+    "conditions merged with && keep them (refactored/C16-A..D stay quiet).",
+    "no free parameters: handler_level_threshold_is_prefilter, log_per_thread_order_tied and "
+    "async_call_passes_iff_prefilter_tied tie the threshold sc_lowest / as_lowest of the interleaving models to the attached "
+    "handlers (the least handler level; 2^31 without handlers) = the code's pre-filter; async_usable_capacity_spec / "
+    "async_known_class_is_capacity_le_2 state as_usable = (least power of two >= requested capacity) - 2 and the known class as "
+    "'requested capacity <= 2' (that the channel itself behaves so is C01's subject; here it is what the vs traces are accepted "
+    "against).",
+    "genuine defect found with the allocation fill (cases uninit-*): muggle_async_logger_log left msg->ts / msg->tid of the "
+    "allocated message unset when no formatter carries the time / thread hint, and the time-rotating handler reads "
+    "msg->ts.tv_sec; with the block holding a later time the line went to the file of a bogus period.  Repair: "
+    "fixes/C16-async-msg-uninitialised-ts.patch (zero the message as the sync logger does); regression case "
+    "corpus/C16/regress-async-uninit-ts.case.",
     "quick tier: the extracted handler_write is index-level (quadratic in unary nat), so the quick tier uses a coarse length "
     "grid plus the exact boundary of every built-in handler kind x formatter (edge-*); the thorough tier uses the full grid.",
 ]
@@ -125,8 +171,10 @@ def params():
 def gen_params(ctx):
     p = params()
     lv = [p[k] for k in ("trace", "debug", "info", "warning", "error", "fatal")]
-    return ("(* generated by lib/props/c16.py from muggle/c/log/{log_msg.h,log_level.h,log_logger.h}; do not edit *)\n"
+    head = ("(* generated by lib/props/c16.py from muggle/c/log/{log_msg.h,log_level.h,log_logger.h} and, below, by\n"
+            "   lib/props/c16_slice.py from the C text of muggle/c/log/*.c; do not edit *)\n"
             "From MV Require Import C16.Model.\n"
+            "From MV Require Import Lib.Leaf.\n"
             "Local Open Scope Z_scope.\n"
             "Definition code_limit : nat := %d%%nat.\n"
             "Definition code_level_offset : Z := %d.\n"
@@ -135,6 +183,22 @@ def gen_params(ctx):
             "  {| lv_warning := %d; lv_error := %d; lv_fatal := %d; lv_max_handler := %d%%nat |}.\n" % (
                 p["limit"], p["offset"], "; ".join(("(%d)" % v) if v < 0 else str(v) for v in lv),
                 p["warning"], p["error"], p["fatal"], p["max_handler"]))
+    # second tie (DESIGN.md 4.4): level test, pre-filter loops, payload / line clamps, rotation test, formatter layouts
+    # and level names, sliced out of the C text of this run (lib/props/c16_slice.py) and translated by lib/leaftrans.py
+    from props import c16_slice as S
+    flags = ["-std=gnu11", "-I" + V.REPO, "-I" + V.GEN_INC, "-DNDEBUG"]
+    try:
+        body = S.generate(V.REPO, flags, p["max_handler"], cache_dir=os.path.join(V.BUILD, "C16", "astcache"), cc=V.CC)
+    except Exception as e:      # a broken slicer must break the obligations, not the machinery
+        body = "(* slicer failure: %s *)\n" % str(e)[:300].replace("*)", "* )").replace("(*", "( *")
+    tail = ""
+    if "Definition code_level_names " not in body:
+        # keep this file (and the extracted model) compiling; gen_level_index_matches_model is broken by the missing gen_level_index
+        tail += ("Definition code_level_names : list (list byte) := [].\n"
+                 "Definition code_level_unknown : list byte := [].\n")
+    tail += ("Definition code_fmtcfg : fmtcfg :=\n"
+             "  {| fc_names := code_level_names; fc_unknown := code_level_unknown; fc_offset := code_level_offset |}.\n")
+    return head + "\n(* --- re-translated from muggle/c/log/*.c on this run --- *)\n" + body + "\n" + tail
 
 
 # ---------------------------------------------------------------------------
@@ -172,6 +236,8 @@ def _seq(name, logger, hs, ops, clock=(1700000000, 123456789), meta=None):
             lines.append("hold %d %d %s %s" % (o[1], o[2], o[3], _hx(o[4])))
         elif o[0] == "release":
             lines.append("release")
+        elif o[0] == "fill":
+            lines.append("fill64 %d" % o[1])
     return V.Case(name, lines, meta or {})
 
 
@@ -248,6 +314,16 @@ def generate(rng, tier):
             hs = [("cap", hl, "simple"), ("file", hl, "complicated"), ("cap", allv[(i + 5) % len(allv)], "complicated")]
             ops = [("log", lv, 100 + j, rng.choice(["s", "ds"]), b"lv%d/%d" % (lv, hl)) for j, lv in enumerate(allv)]
             cases.append(_seq("pairs-%s-%d" % (logger.split()[0], hl), logger, hs, ops))
+    # (a2) the prefix of both formatters: every level name (and the name of a level outside the table), clocks at the
+    # epoch, around a leap day, at the end of a month / year, milliseconds 000 and 999, one- to ten-digit line numbers
+    clocks = [(0, 0), (951782399, 999999999), (951782400, 999999), (1709251199, 1000000), (1735689599, 500000000)]
+    if tier != "quick":
+        clocks += [(59, 1), (1078012800, 123000000), (1999999999, 999000000), (rng.below(2000000000), rng.below(1000000000))]
+    for i, ck in enumerate(clocks):
+        ops = [("log", lv, [1, 9, 10, 77, 4096, 65535, 99999, 1000000, 2147483647, 2147483646, 123, 5, 42][j % 13], "s", b"p%d" % j)
+               for j, lv in enumerate(allv)]
+        cases.append(_seq("prefix-%d" % i, "sync" if i % 2 else "async 64",
+                          [("cap", -5000, "complicated"), ("file", -5000, "simple"), ("cap", -5000, "simple")], ops, clock=ck))
     # (b) lengths x content x handler kinds
     kinds_sets = [[("cap", 0, "raw"), ("file", 0, "simple")],
                   [("cap", 0, "complicated"), ("file", 0, "complicated"), ("cap", 0, "raw")],
@@ -363,6 +439,41 @@ def generate(rng, tier):
         ops.append(("release",))
         ops.append(("log", rng.choice(LEVELS), 30, "s", b"after"))
         cases.append(_seq("lvl-held-%d" % r, "async 64", hs, ops))
+    # (e1) the plain file handler's other ways in: append mode on a file that already has a line, a path relative to the
+    # working directory (curdir + join), the handler without its mutex (muggle_log_handler_set_mutex(false), one thread)
+    for i, (kd, logger) in enumerate([("filea", "sync"), ("filea", "async 64"), ("filerel", "sync"), ("filerel", "async 64"),
+                                      ("filenm", "sync")]):
+        n0 = limit - len(format_line(1, 512, 77, 4242, (1700000000, 123456789), b""))
+        cases.append(_seq("filevar-%s-%d" % (kd, i), logger, [(kd, 256, "complicated"), ("cap", 0, "simple"), (kd, 768, "simple")],
+                          [("log", 512, 77, "s", b"one"), ("log", 768, 77, "ds", b"two"), ("log", 0, 77, "s", b"filtered"),
+                           ("log", 512, 77, "s", _content(rng, "ascii", n0 + 1)), ("log", 1280, 77, "s", b"last")]))
+    # (e1b) the library's own entry points (log.c): muggle_log_simple_init / muggle_log_complicated_init on the default
+    # logger, calls through the MUGGLE_LOG_DEFAULT macro: console (colours on) + rotating file "log/<process>.log"
+    # relative to the working directory / console + time-rotating file; the formatters they install are private to
+    # log.c (level|sec.nsec|file:line|func|tid - payload, and a copy of the complicated layout)
+    for i, (lc, lf) in enumerate([(0, 0), (512, 256), (768, -1), (-1, 0), (1280, 1024)] if tier == "quick" else
+                                 [(0, 0), (512, 256), (768, -1), (-1, 0), (1280, 1024), (256, 1536), (-1, -1), (1, 255)]):
+        for which, fm, fkind in (("inits", "initsimple", "rotrel"), ("initc", "complicated", "trot")):
+            hs = ([("console", lc, fm)] if lc >= 0 else []) + ([(fkind, lf, fm)] if lf >= 0 else [])
+            base = limit - len(format_line(3 if which == "inits" else 1, 512, 77, 4242, (1700000000 + i, 123456789), b""))
+            ops = [("log", lv, 77, "s", b"init %d/%d" % (j, lv)) for j, lv in enumerate(allv)]
+            ops += [("log", 1024, 77, "s", _content(rng, "ascii", base + d)) for d in (-1, 0, 1)]
+            ops.append(("log", 512, 77, "s", _content(rng, "fmt", 60)))
+            cases.append(_seq("init-%s-%d" % (which, i), "%s %d %d" % (which, lc, lf), hs, ops, clock=(1700000000 + i, 123456789)))
+    # (e2) nothing may depend on what malloc leaves in a fresh block: the async logger's message is allocated, and
+    # its clock / thread id are stored only when some formatter asked for them; handlers that look at them anyway
+    # (the time-rotating handler reads msg->ts) must see "not set" (0 -> time(NULL)), as with the sync logger.
+    # The blocks allocated by the log calls are pre-filled with a 64-bit word: a plausible future time, 1, a huge
+    # value, all ones.
+    fills = [1800000000, 1, 1 << 62, (1 << 64) - 1] if tier == "quick" else \
+        [1800000000, 1, 86400, 1 << 31, 1 << 62, (1 << 64) - 1, 0x0101010101010101, rng.below(1 << 40)]
+    for i, fv in enumerate(fills):
+        for kd in (("trot",) if tier == "quick" else ("trot", "trots", "rot", "file")):
+            cases.append(_seq("uninit-%s-%d" % (kd, i), "async 64", [(kd, 0, "simple"), ("cap", 0, "simple")],
+                              [("fill", fv), ("log", 512, 5, "s", b"first"), ("log", 1024, 6, "ds", b"second"),
+                               ("log", 256, 7, "s", b"third")]))
+    cases.append(_seq("uninit-hinted", "async 64", [("trot", 0, "simple"), ("cap", 0, "complicated")],
+                      [("fill", 1800000000), ("log", 512, 5, "s", b"first"), ("log", 1024, 6, "s", b"second")]))
     # (f) real threads
     tn = [1, 2, 4, 8, 16]
     msgs = 40 if tier == "quick" else 400
@@ -383,6 +494,12 @@ def generate(rng, tier):
             cases.append(_thr("thr-rot-time-%d-%d" % (n, r), "thr", "sync",
                               [("trots", 0, "complicated"), ("trots", 512, "simple"), ("rots", 512, "simple")], n, msgs, 20 + n, tick=1))
     cases.append(_thr("thr-rot-async-4", "thr", "async 4096", [("rots", 0, "simple"), ("trots", 256, "complicated")], 4, msgs, 30, tick=1))
+    # (f3) the console handler under real threads (stdout below WARNING, stderr from WARNING on, colours on / off): what it
+    # hands to fwrite is captured; the three writes of a coloured line must not be separated by another thread's bytes
+    for n in ((2, 8, 16) if tier == "quick" else (2, 3, 4, 8, 12, 16)):
+        cases.append(_thr("thr-con-%d" % n, "thr", "sync", [("console", 256, "simple"), ("file", 512, "complicated")], n, msgs, 24 + n))
+        cases.append(_thr("thr-conplain-%d" % n, "thr", "sync", [("cap", 0, "simple"), ("conplain", 0, "complicated")], n, msgs, 20 + n))
+    cases.append(_thr("thr-con-async-4", "thr", "async 4096", [("console", 0, "complicated"), ("file", 256, "simple")], 4, msgs, 30))
     # (g) deterministic scheduler: handler-mutex atomicity (sync) and the async queue-full / shutdown paths
     nvs = 12 if tier == "quick" else 150
     for i in range(nvs):
@@ -398,6 +515,19 @@ def generate(rng, tier):
               for _ in range(rng.range(1, 2))]
         cases.append(_thr("vs-rot-%d" % i, "vs", "sync", hs, n, m, 12, tick=1,
                           sched="rand %d %d 0 0" % (rng.below(1 << 30), rng.choice([20, 50, 80]))))
+    # the console handler under the scheduler: its mutex is what keeps escape sequence + line + reset together
+    for i in range(nvs):
+        n, m = rng.range(2, 4), rng.range(2, 4)
+        hs = [(rng.choice(["console", "console", "conplain"]), rng.choice(LEVELS[:4]), rng.choice(["simple", "complicated"]))]
+        if rng.chance(1, 2):
+            hs.append((rng.choice(["cap", "file"]), rng.choice(LEVELS[:4]), "simple"))
+        if rng.chance(1, 2):
+            hs.reverse()
+        cases.append(_thr("vs-con-%d" % i, "vs", "sync", hs, n, m, 12,
+                          sched="rand %d %d 0 0" % (rng.below(1 << 30), rng.choice([20, 50, 80]))))
+    for i in range(max(2, nvs // 4)):
+        cases.append(_thr("vs-con-async-%d" % i, "vs", "async 8", [("console", rng.choice([0, 512]), "simple")], rng.range(1, 3),
+                          rng.range(1, 4), 12, sched="rand %d %d 0 0" % (rng.below(1 << 30), rng.choice([20, 50, 80]))))
     for capy in (3, 4, 8):
         for i in range(nvs):
             n, m = rng.range(1, 3), rng.range(1, 5)
@@ -422,6 +552,11 @@ def search(rng, diverging, tier):
     for i, hl in enumerate(LEVELS + ODD_LEVELS):
         out.append(_seq("search-pairs-%d" % i, "sync", [("cap", hl, "simple"), ("file", hl, "simple")],
                         [("log", lv, 1, "s", b"x") for lv in LEVELS + ODD_LEVELS]))
+    # the prefix of both formatters: every level name, clocks across month / year ends and leap days, line numbers
+    for i, sec in enumerate([0, 59, 951782399, 951782400, 1078012800, 1700000000, 1709251199, 1735689599, 1999999999]):
+        out.append(_seq("search-prefix-%d" % i, "sync", [("cap", -5000, "complicated"), ("file", -5000, "simple")],
+                        [("log", lv, 1 + 37 * j * (i + 1), "s", b"p") for j, lv in enumerate(LEVELS + ODD_LEVELS)],
+                        clock=(sec, (i * 123456789) % 1000000000)))
     return out
 
 
@@ -438,7 +573,7 @@ def model_cases(cases, impl_results):
 # independent monitor
 
 def _parse_case(case):
-    cfg = {"mode": "seq", "async": False, "cap": 0, "clock": (1700000000, 123456789), "hs": [], "ops": [],
+    cfg = {"mode": "seq", "async": False, "cap": 0, "init": None, "clock": (1700000000, 123456789), "hs": [], "ops": [],
            "threads": None, "lossy": False, "sched": None, "tick": 0}
     for ln in case.lines:
         w = ln.split()
@@ -449,10 +584,11 @@ def _parse_case(case):
         elif w[0] == "logger":
             cfg["async"] = len(w) > 1 and w[1] == "async"
             cfg["cap"] = int(w[2]) if len(w) > 2 else 0
+            cfg["init"] = {"inits": 3, "initc": 1}.get(w[1]) if len(w) > 1 else None
         elif w[0] == "clock" and len(w) == 3:
             cfg["clock"] = (int(w[1]), int(w[2]))
         elif w[0] == "h" and len(w) == 4:
-            cfg["hs"].append((w[1], int(w[2]), 1 if w[3] == "complicated" else 2 if w[3] == "raw" else 0))
+            cfg["hs"].append((w[1], int(w[2]), {"complicated": 1, "raw": 2, "initsimple": 3}.get(w[3], 0)))
         elif w[0] == "setlevel" and len(w) == 3:
             cfg["ops"].append(("set", int(w[1]), int(w[2])))
         elif w[0] == "failmalloc" and len(w) == 2:
@@ -483,6 +619,9 @@ def format_line(fmt, level, srcline, tid, clock, payload):
         return payload              # the driver's custom formatter: the payload alone
     if fmt == 0:
         head = "%s|%s:%d - " % (level_name(level), SRC_BASENAME, srcline)
+    elif fmt == 3:
+        # the formatter muggle_log_simple_init installs: level|seconds.nanoseconds|file:line|function|thread id - payload
+        head = "%s|%d.%09d|%s:%d|%s|%d - " % (level_name(level), clock[0], clock[1], SRC_BASENAME, srcline, SRC_FUNC, tid)
     else:
         t = time.gmtime(clock[0])
         head = "%s|%d-%02d-%02dT%02d:%02d:%02d.%03d|%s:%d|%s|%d - " % (
@@ -553,7 +692,7 @@ def _mon_seq(cfg, lines, limit):
         if exp not in lines:
             return "add_handler #%d: expected %r" % (i, exp)
     levels = [h[1] for h in cfg["hs"]]
-    expect = {}
+    expect = {("file", i): PRE_EXISTING for i, h in enumerate(cfg["hs"]) if h[0] == "filea"}   # opened with "ab": kept
     rets = {i: [] for i in range(len(cfg["hs"]))}
     nhs = len(cfg["hs"])
 
@@ -581,6 +720,52 @@ def _mon_seq(cfg, lines, limit):
     # (hold ... release) the calls wait in the queue and meet the levels as they are at release time.
     fail = 0
     held, pending = None, []
+    # the formatters themselves: per call the implementation prints the unbounded output of its two built-in
+    # formatters for the bounded payload; the whole line (level name, clock fields, file:line, function, thread id,
+    # separators, payload, newline) must be the documented layout, with the canonical clock and thread id of the case
+    k = 0
+    got_calls = {int(ln.split()[1]): ln for ln in lines if ln.startswith("call ")}
+    for o in cfg["ops"]:
+        if o[0] not in ("log", "hold"):
+            continue
+        _op, level, srcline, tmpl, content = o
+        text = (b"%d|" % srcline + content) if tmpl == "ds" else content
+        ln = got_calls.get(k)
+        if ln is None:
+            return "no formatter line for call %d" % k
+        w = ln.split()
+        try:
+            fields = {x.split("=", 1)[0]: bytes.fromhex(x.split("=", 1)[1].split(":", 1)[1]) for x in w[3:]}
+        except (IndexError, ValueError):
+            return "bad formatter line for call %d" % k
+        for fm, nm in ((0, "simple"), (1, "complicated")):
+            exp = format_line(fm, level, srcline, 4242, cfg["clock"], text[:limit - 1])
+            if fields.get(nm) != exp:
+                g = fields.get(nm, b"")
+                kk = _first_diff(g, exp)
+                return ("call %d: the %s formatter's line differs from the layout at byte %d: got %r expected %r" % (
+                    k, nm, kk, g[max(0, kk - 8):kk + 24], exp[max(0, kk - 8):kk + 24]))
+        if cfg["init"] is not None:
+            # the library's own entry points (log.c): the formatter they install, same canonical call site
+            ic = [x for x in lines if x.startswith("icall %d " % k)]
+            if not ic:
+                return "no line of the init formatter for call %d" % k
+            try:
+                g = bytes.fromhex(ic[0].split("init=", 1)[1].split(":", 1)[1])
+            except (IndexError, ValueError):
+                return "bad init formatter line for call %d" % k
+            exp = format_line(cfg["init"], level, srcline, 4242, cfg["clock"], text[:limit - 1])
+            if g != exp:
+                kk = _first_diff(g, exp)
+                return ("call %d: the formatter installed by muggle_log_%s_init differs from its layout at byte %d: got %r "
+                        "expected %r" % (k, "simple" if cfg["init"] == 3 else "complicated", kk, g[max(0, kk - 8):kk + 24],
+                                         exp[max(0, kk - 8):kk + 24]))
+        k += 1
+    if cfg["init"] is not None:
+        want = "initcnt %d" % len(cfg["hs"])
+        if want not in lines:
+            return "the init entry point attached %s handler(s), expected %d" % (
+                ([x.split()[1] for x in lines if x.startswith("initcnt ")] or ["?"])[0], len(cfg["hs"]))
 
     def release():
         nonlocal held, pending
@@ -702,6 +887,11 @@ def _check_streams_threads(cfg, lines, limit, lossy, partial_ok=False):
                                    "rotation's retention has discarded the oldest backups (not a property violation)" % (
                                        w[1], nfiles, mx))
     for i, (kind, hl, fmt) in enumerate(cfg["hs"]):
+        if kind.startswith("con"):
+            err = _check_console_threads(cfg, got, i, kind, hl, fmt, limit, lossy, partial_ok)
+            if err:
+                return err
+            continue
         g = got.get(("file", i))
         if g is None:
             return "no 'file %d' stream in the output" % i
@@ -739,6 +929,81 @@ def _check_streams_threads(cfg, lines, limit, lossy, partial_ok=False):
             if seen != want:
                 miss = sorted(want - seen)[:3]
                 return "handler %d: %d of %d accepted calls written; missing e.g. %s" % (i, len(seen), len(want), miss)
+    return None
+
+
+def _split_console(g):
+    """a console stream -> [(escape sequence | b"", line with its newline, reset | b"")], error"""
+    recs, pos = [], 0
+    while pos < len(g):
+        esc = b""
+        for e in (ESC_RED, ESC_YEL):
+            if g.startswith(e, pos):
+                esc = e
+                pos += len(e)
+                break
+        nl = g.find(b"\n", pos)
+        if nl < 0:
+            return recs, g[pos:pos + 40]
+        line = g[pos:nl + 1]
+        pos = nl + 1
+        rst = b""
+        if g.startswith(ESC_RST, pos):
+            rst = ESC_RST
+            pos += len(ESC_RST)
+        recs.append((esc, line, rst))
+    return recs, None
+
+
+def _check_console_threads(cfg, got, i, kind, hl, fmt, limit, lossy, partial_ok):
+    """console handler under threads: stdout holds the whole lines below WARNING, stderr those from WARNING on; with
+    colours every line is escape sequence + line + reset, never interleaved with another thread's bytes"""
+    n, msgs, paylen = cfg["threads"]
+    p = params()
+    warning, error = p.get("warning", 768), p.get("error", 1024)
+    seen = set()
+    for tag in ("out", "err"):
+        g = got.get((tag, i))
+        if g is None:
+            return "no '%s %d' stream in the output" % (tag, i)
+        recs, torn = _split_console(g)
+        if torn is not None and not partial_ok:
+            return "handler %d (%s) stream '%s' does not end with a whole line: %r" % (i, kind, tag, torn)
+        last = {}
+        for esc, line, rst in recs:
+            m = TAG.search(line)
+            if not m:
+                return "handler %d (%s) '%s': line without a whole tag (torn or interleaved): %r" % (i, kind, tag, line[:80])
+            t, k = int(m.group(1)), int(m.group(2))
+            if t >= n or k >= msgs:
+                return "handler %d (%s): line of an unknown call T%d-%d" % (i, kind, t, k)
+            level = thr_level(t, k)
+            exp = cut_line(format_line(fmt, level, 1000 + t, 100 + t, _clock(cfg, k), make_payload(paylen, t, k)[:limit - 1]), limit)
+            if line != exp:
+                kk = _first_diff(line, exp)
+                return "handler %d (%s) '%s': torn/interleaved line for call T%d-%d at byte %d: got %r expected %r" % (
+                    i, kind, tag, t, k, kk, line[kk:kk + 30], exp[kk:kk + 30])
+            coloured = kind == "console" and level >= warning
+            want_esc = (ESC_RED if level >= error else ESC_YEL) if coloured else b""
+            want_rst = ESC_RST if coloured else b""
+            if esc != want_esc or (rst != want_rst and not (partial_ok and rst == b"")):
+                return ("handler %d (%s) '%s': colour sequences around the line of call T%d-%d are %r ... %r, expected %r ... %r "
+                        "(another thread's bytes in between)" % (i, kind, tag, t, k, esc, rst, want_esc, want_rst))
+            if (level >= warning) != (tag == "err"):
+                return "handler %d (%s): line of level %d on %s" % (i, kind, level, "stderr" if tag == "err" else "stdout")
+            if level < hl:
+                return "handler %d (level %d) wrote a line of level %d (call T%d-%d)" % (i, hl, level, t, k)
+            if (t, k) in seen:
+                return "handler %d: call T%d-%d written twice" % (i, t, k)
+            seen.add((t, k))
+            if t in last and last[t] >= k:
+                return "handler %d '%s': thread %d's lines out of order (%d after %d)" % (i, tag, t, k, last[t])
+            last[t] = k
+    if not lossy:
+        want = {(t, k) for t in range(n) for k in range(msgs) if thr_level(t, k) >= hl}
+        if seen != want:
+            miss = sorted(want - seen)[:3]
+            return "handler %d (%s): %d of %d accepted calls written; missing e.g. %s" % (i, kind, len(seen), len(want), miss)
     return None
 
 
@@ -854,6 +1119,8 @@ def _mon_vs(cfg, lines, limit):
         except ValueError as e:
             return str(e)
         for i, (kind, hl, fmt) in enumerate(cfg["hs"]):
+            if kind.startswith("con"):
+                continue                # stdout / stderr split: checked line by line above
             exp = b""
             for (t, k) in accepted:
                 lv = thr_level(t, k)
@@ -885,6 +1152,14 @@ def canon(lines):
             n, hx = w[2].split(":", 1)
             recs = bytes.fromhex(hx).split(b"\n")
             out.append("file %s %s:%s" % (w[1], n, b"\n".join(sorted(recs)).hex()))
+        elif ln.startswith(("out ", "err ")):
+            if lossy:
+                continue
+            w = ln.split()
+            n, hx = w[2].split(":", 1)
+            recs, torn = _split_console(bytes.fromhex(hx))
+            body = b"".join(sorted(a + b + c for a, b, c in recs)) + (b"<torn>" + torn if torn is not None else b"")
+            out.append("%s %s %s:%s" % (w[0], w[1], n, body.hex()))
         else:
             out.append(ln)
     return out
